@@ -26,6 +26,7 @@ inductive OVal (V : Type) where
   | seq (k : SeqK) (xs : List (OVal V))
   | dict (kvs : List (OVal V × OVal V))           -- insertion-ordered, keys pairwise different
   | fn (k : Nat)                                  -- a callable known by number (user predicate, factory, detector…)
+  | cls (k : Nat)                                 -- a class known by number (its attributes are the world's business)
   | obj (cls : String) (attrs : List (String × OVal V))   -- an instance: class name + `__dict__` (+ class attributes)
   | val (v : V)                                   -- a value of the hand model's abstract value type
 
@@ -47,6 +48,8 @@ structure World (V : Type) where
   call : OVal V → List (OVal V) → M V (OVal V)
   /-- calling a function of utype itself that is not translated here, by name (`copy_value`, `Options()`) -/
   ext : String → List (OVal V) → M V (OVal V)
+  /-- `getattr(C, name)` for a class known by number; `none` = no such attribute -/
+  clsAttr : Nat → String → Option (OVal V)
 
 variable {V : Type}
 
@@ -88,8 +91,20 @@ def truthy : OVal V → M V Bool
   | .seq _ xs => pure (!xs.isEmpty)
   | .dict kvs => pure (!kvs.isEmpty)
   | .fn _ => pure true
+  | .cls _ => pure true
   | .obj _ _ => pure true
   | .val _ => throw (.unmodelled "truthiness of an abstract value")
+
+@[simp] theorem truthy_none : truthy (OVal.none : OVal V) = .ok false := rfl
+@[simp] theorem truthy_unprovided : truthy (OVal.unprovided : OVal V) = .ok false := rfl
+@[simp] theorem truthy_bool (b : Bool) : truthy (OVal.bool b : OVal V) = .ok b := rfl
+@[simp] theorem truthy_int (i : Int) : truthy (OVal.int i : OVal V) = .ok (i != 0) := rfl
+@[simp] theorem truthy_str (s : String) : truthy (OVal.str s : OVal V) = .ok (s.toList != []) := rfl
+@[simp] theorem truthy_seq (k : SeqK) (xs : List (OVal V)) : truthy (OVal.seq k xs) = .ok (!xs.isEmpty) := rfl
+@[simp] theorem truthy_dict (kvs : List (OVal V × OVal V)) : truthy (OVal.dict kvs) = .ok (!kvs.isEmpty) := rfl
+@[simp] theorem truthy_fn (k : Nat) : truthy (OVal.fn k : OVal V) = .ok true := rfl
+@[simp] theorem truthy_cls (k : Nat) : truthy (OVal.cls k : OVal V) = .ok true := rfl
+@[simp] theorem truthy_obj (c : String) (a : List (String × OVal V)) : truthy (OVal.obj c a) = .ok true := rfl
 
 def SeqK.name : SeqK → String
   | .list => "list" | .tuple => "tuple" | .set => "set" | .frozenset => "frozenset"
@@ -106,12 +121,14 @@ def isinstance (x : OVal V) (classes : List String) : M V Bool :=
   | .seq k _ => pure (classes.contains k.name)
   | .dict _ => pure (classes.contains "dict")
   | .fn _ => pure (classes.contains "function")
+  | .cls _ => pure (classes.contains "type")
   | .obj c _ => pure (classes.contains c)
   | .val _ => throw (.unmodelled "class of an abstract value")
 
 /-- `callable(x)` -/
 def callable : OVal V → M V Bool
   | .fn _ => pure true
+  | .cls _ => pure true
   | .unprovided => pure true           -- `Unprovided` defines `__call__`
   | .obj _ _ => throw (.unmodelled "callable(instance)")
   | .val _ => throw (.unmodelled "callable(abstract value)")
@@ -133,6 +150,7 @@ def eqS (a b : OVal V) : Option Bool :=
   | .ellipsis, .ellipsis => some true
   | .str s, .str t => some (s == t)
   | .fn j, .fn k => some (j == k)
+  | .cls j, .cls k => some (j == k)
   | .val _, _ => Option.none
   | _, .val _ => Option.none
   | .obj _ _, _ => Option.none
@@ -197,6 +215,25 @@ def setattr (x : OVal V) (name : String) (v : OVal V) : M V (OVal V) :=
   match x with
   | .obj c attrs => pure (.obj c (setAttrL name v attrs))
   | _ => throw (.unmodelled "attribute assignment on a non-instance")
+
+/-- `hasattr(x, name)` / `getattr(x, name)` with a computed name (`hasattr(t, self.shortcut)`) -/
+def hasattrW (W : World V) (x name : OVal V) : M V Bool :=
+  match name with
+  | .str n => match x with
+    | .obj _ attrs => pure (lookupAttr n attrs).isSome
+    | .cls k => pure (W.clsAttr k n).isSome
+    | .val _ => throw (.unmodelled "attribute of an abstract value")
+    | _ => pure false
+  | _ => throw .typeError
+
+def getattrW (W : World V) (x name : OVal V) : M V (OVal V) :=
+  match name with
+  | .str n => match x with
+    | .cls k => match W.clsAttr k n with
+      | some v => pure v
+      | Option.none => throw (.attributeError n)
+    | x => getattr x n
+  | _ => throw .typeError
 
 /-! ### numbers -/
 
